@@ -219,6 +219,11 @@ def plan_c17(seed: int, *, faults=True) -> dict:
     }
     _alt_phases(plan, rng)
     _add_poison(plan, rng)
+    if "bad" not in plan["inputs"]:
+        # a restart may also happen under `python -O` (assert statements stripped).  Not combined
+        # with malformed subjects, whose rejection by the library is itself an assert.
+        opt = [pi for pi in range(1, len(plan["phases"])) if pi not in plan["knobs"]["alt_phases"] and rng.random() < 0.2]
+        plan["knobs"]["opt_phases"] = opt
     # the output name may be given without its extension (documented: ".tsv" is appended)
     for fname in list(files):
         if fname.endswith(".tsv") and "." not in fname[:-4] and "/" not in fname and rng.random() < 0.15:
